@@ -94,10 +94,12 @@ Section Storage.
 
   Lemma step_T st op : T st -> T (step o st op).
   Proof.
-    intros H. destruct op as [n|ns| |ns]; cbn [step]; [| | |exact (fold_offer_T ns st H)].
+    intros H. destruct op as [n|ns| |ns]; cbn [step]; cbv zeta; [| | |exact (fold_offer_T ns st H)].
     - assert (H1 : T (run_quiet o (offer o st n))) by (apply pump_T, offer_T, H).
       destruct (is_wfr o); [rewrite (flush_cur_T _ H1); exact (pump_T _ _ H1)|exact H1].
-    - apply pump_T. exact (fold_offer_T ns st H).
+    - match goal with |- context [run_quiet o (gauge ?X)] => assert (H2 : T (run_quiet o (gauge X))) by (apply pump_T; exact (fold_offer_T ns st H)) end.
+      assert (HG : forall x, T x -> T (gauge x)) by (intros x Hx; exact Hx).
+      destruct (is_wfr o); apply HG; [rewrite (flush_cur_T _ H2); exact (pump_T _ _ H2)|exact H2].
     - rewrite (flush_cur_T _ H). exact (pump_T _ _ H).
   Qed.
 
